@@ -858,6 +858,11 @@ func (kc *kernelCtx) hooks(b *Block, ts *TypeSpec, recv string, inline map[strin
 			}
 		}
 		if len(tracked) != len(pats) {
+			if os.Getenv("ROVC_DEBUG") != "" {
+				for _, ev := range evs {
+					fmt.Fprintf(os.Stderr, "ITER-EVENT %s %s\n", ls.Name, ev.Name)
+				}
+			}
 			return "false"
 		}
 		var cs []string
